@@ -190,6 +190,84 @@ m("C14","attest-act-before-flag","x/storage/keeper/msg_server_attest.go",
 
 	if count""","C14/R1","storage.MsgAttest:signer-matched-flag")
 
+# ---- C17
+m("C17","setfile-primary-only","x/storage/keeper/files.go",
+  """	k.setFilePrimary(ctx, file)
+	k.setFileSecondary(ctx, file)""","""	k.setFilePrimary(ctx, file)
+	if len(file.Proofs) > 0 {
+		k.setFileSecondary(ctx, file)
+	}""","C17/R1","Set-pairs-by-owner")
+m("C17","removefile-one-index","x/storage/keeper/files.go",
+  """	k.removeFilePrimary(ctx, merkle, owner, start)
+	k.removeFileSecondary(ctx, merkle, owner, start)""","""	k.removeFilePrimary(ctx, merkle, owner, start)""","C17/R1","Delete-pairs-by-owner")
+m("C17","removefile-secondary-other-key","x/storage/keeper/files.go",
+  'k.removeFileSecondary(ctx, merkle, owner, start)','k.removeFileSecondary(ctx, merkle, file.Note, start)',"C17/R1","Delete-pairs")
+m("C17","append-without-contains","x/storage/keeper/msg_server_postproof.go",
+  'if file.ContainsProver(prover) {','if file.ContainsProver(prover) && msg.ToProve > 0 {',"C17/R3","append-only-if-absent")
+m("C17","append-beyond-limit","x/storage/types/file_deal.go",
+  """	if len(f.Proofs) >= int(f.MaxProofs) {
+		return nil
+	}
+
+	pk""","""	if len(f.Proofs) >= int(f.MaxProofs) && prover == "" {
+		return nil
+	}
+
+	pk""","C17/R3","append-below-limit")
+m("C17","addprover-no-file-save","x/storage/types/file_deal.go",
+  """	k.SetProof(ctx, p)
+	k.SetFile(ctx, *f)
+
+	return &p""","""	k.SetProof(ctx, p)
+
+	return &p""","C17/R2","AddProver:proofs-list-update")
+m("C17","removeprover-keeps-proof-record","x/storage/types/file_deal.go",
+  'k.RemoveProofWithBuiltKey(ctx, []byte(proofKey))\n\t\t\tf.Save(ctx, k)','f.Save(ctx, k)',"C17/R2","RemoveProverWithKey:proofs-list-update")
+m("C17","removefile-keeps-proofs","x/storage/keeper/files.go",
+  """		k.RemoveProofWithBuiltKey(ctx, []byte(proof))
+	}
+
+	k.removeFilePrimary""","""		_ = proof
+	}
+
+	k.removeFilePrimary""","C17/R2","removal-deletes-listed-proofs")
+m("C17","proof-record-wrong-owner","x/storage/types/file_deal.go",
+  """		Owner:        f.Owner,
+		Start:        f.Start,
+		LastProven:   ctx.BlockHeight(),""","""		Owner:        prover,
+		Start:        f.Start,
+		LastProven:   ctx.BlockHeight(),""","C17/R3","proof-record-refers-to-file:Owner")
+
+# ---- C18
+m("C18","create-drop-block-check","x/notifications/keeper/msg_server_create_notifications.go",
+  'if k.IsBlocked(ctx, address.String(), sender) {','if k.IsBlocked(ctx, address.String(), sender) && len(msg.Contents) > 1024 {',"C18/R2","not-blocked")
+m("C18","create-check-blocked-swapped","x/notifications/keeper/msg_server_create_notifications.go",
+  'if k.IsBlocked(ctx, address.String(), sender) {','if k.IsBlocked(ctx, sender, address.String()) {',"C18/R2","not-blocked")
+m("C18","create-from-is-to","x/notifications/keeper/msg_server_create_notifications.go",
+  'From:            sender,','From:            owner,',"C18/R2","from-is-signer")
+m("C18","create-to-unresolved-other","x/notifications/keeper/msg_server_create_notifications.go",
+  'To:              address.String(),','To:              msg.To,',"C18/R2","to-is-tested-recipient")
+m("C18","delete-keyed-by-from","x/notifications/keeper/msg_server_delete_notifications.go",
+  'k.RemoveNotification(ctx, msg.Creator, msg.From, msg.Time)','k.RemoveNotification(ctx, msg.From, msg.Creator, msg.Time)',"C18/R3","inbox-component-is-signer")
+m("C18","third-type-under-feed-prefix","x/oracle/keeper/feeds.go",
+  'store.Set(types.FeedKey(feed.Name), f)','store.Set(types.FeedKey(feed.Name), f)\n\tprm := k.GetParams(ctx)\n\tstore.Set(types.FeedKey("params"), k.cdc.MustMarshal(&prm))',"C18/R1","prefix-types:oracle/Feed/value/")
+m("C18","inbox-prefix-without-separator","x/notifications/keeper/notifications.go",
+  'iterator := sdk.KVStorePrefixIterator(store, []byte(fmt.Sprintf("%s/", address)))','iterator := sdk.KVStorePrefixIterator(store, []byte(fmt.Sprintf("%s", address)))',"C18/R5","inbox-prefix")
+m("C18","blocksenders-writes-notification","x/notifications/keeper/msg_server_block_senders.go",
+  'k.SetBlock(ctx, b)','k.SetBlock(ctx, b)\n\t\tk.SetNotification(ctx, types.Notification{To: msg.Creator, From: address.String()})',"C18/R4","writes-notification")
+# ---- C19
+m("C19","storage-export-drops-collateral","x/storage/genesis.go",
+  '\tgenesis.CollateralList = k.GetAllCollateral(ctx)\n','',"C19/R1","genesis-omits:storage/Collateral/value/")
+m("C19","rns-init-drops-bids","x/rns/genesis.go",
+  """	for _, elem := range genState.BidsList {
+		k.SetBids(ctx, elem)
+	}""","""	for range genState.BidsList {
+	}""","C19/R1","genesis-omits:rns/Bids/value/")
+m("C19","filetree-export-drops-pubkeys","x/filetree/genesis.go",
+  'genesis.PubKeyList = k.GetAllPubkey(ctx)','_ = k.GetAllPubkey',"C19/R3","filetree:GenesisState.PubKeyList")
+m("C19","oracle-init-skips-feeds","x/oracle/genesis.go",
+  'k.SetFeed(ctx, elem)','_ = elem',"C19/R1","genesis-omits:oracle/Feed/value/")
+
 for x in M:
     d = os.path.join(os.path.dirname(os.path.abspath(__file__)), x["property"])
     os.makedirs(d, exist_ok=True)
